@@ -46,7 +46,9 @@ func loadProto() error {
 }
 
 // fontName is the 14 character PostScript name standing for the model name p.
-func fontName(p int) string { return fmt.Sprintf("n%x", p) + strings.Repeat("x", 14-len(fmt.Sprintf("n%x", p))) }
+func fontName(p int) string {
+	return fmt.Sprintf("n%x", p) + strings.Repeat("x", 14-len(fmt.Sprintf("n%x", p)))
+}
 
 // patchedRoboto returns Roboto-Regular with its PostScript name (nameID 6) replaced by name (14 chars).
 func patchedRoboto(name string) []byte {
@@ -104,7 +106,7 @@ func buildTTC(fonts [][]byte) []byte {
 	return out
 }
 
-func nm(p int) string  { return fmt.Sprintf("n%x", p) }
+func nm(p int) string     { return fmt.Sprintf("n%x", p) }
 func newTok(p int) []byte { return []byte{0xC0, byte(p)} }
 func oldTok(p int) []byte { return []byte{0xA0, byte(p)} }
 
